@@ -189,22 +189,30 @@ def request_ctx(rq):
     return _app.test_request_context('/', query_string=qs, **kw)
 
 
-def run_case(case):
+MODES = None
+
+
+def decorate(case, params, seen, token):
+    """case: sig / mode / strict / ignore / async of ONE function; params: real Parameter objects (possibly shared)"""
     from pedantic.decorators.fn_deco_validate.fn_deco_validate import validate, ReturnAs
-    journal, seen, token = [], [], object()
-    params = [make_param(p, journal) for p in case['params']]
     func = make_function(case, seen, token)
     mode = [ReturnAs.ARGS, ReturnAs.KWARGS_WITH_NONE, ReturnAs.KWARGS_WITHOUT_NONE][case['mode']]
     deco = validate(*params, return_as=mode, strict=case['strict'], ignore_input=case['ignore'])(func)
     if case['sig']['method']:
         K = type('K', (Inst,), {'f': deco})
-        target = K().f
-    else:
-        target = deco
+        return K().f
+    return deco
+
+
+def perform(case, target, pdescs, journal, seen, token):
+    """one call of an already decorated function; pdescs: the Parameter descriptions whose environment variables
+    are set up for this call; journal / seen are emptied first"""
+    del journal[:]
+    del seen[:]
     args = [dec(v) for v in case['args']]
     kwargs = {pname(n): dec(v) for n, v in case['kwargs']}
     touched = []
-    for p in case['params']:
+    for p in pdescs:
         if p['kind'] == 'env':
             touched.append(env_name(p))
             os.environ.pop(env_name(p), None)
@@ -235,8 +243,40 @@ def run_case(case):
         res['binding'] = sorted([ncode(k), enc(v)] for k, v in b.items())
         if res['final'][0] == 'raise':
             res['raised_after_body'] = True
-    res['journal'] = journal
+    res['journal'] = list(journal)
     return res
+
+
+def run_case(case):
+    if 'calls' in case:
+        return run_shared(case)
+    journal, seen, token = [], [], object()
+    params = [make_param(p, journal) for p in case['params']]
+    target = decorate(case, params, seen, token)
+    return perform(case, target, case['params'], journal, seen, token)
+
+
+def run_shared(case):
+    """The SAME Parameter objects decorate several functions (different signature defaults, modes, declaration
+    orders); the functions are called one after the other.  -> {'steps': [result of every call]}"""
+    journal = []
+    pdescs = case['params']
+    params = [make_param(p, journal) for p in pdescs]        # built once: shared by all functions
+    funcs = []
+    for f in case['funcs']:
+        seen, token = [], object()
+        target = decorate(f, [params[i] for i in f['order']], seen, token)
+        funcs.append((f, target, seen, token))
+    steps = []
+    for call in case['calls']:
+        f, target, seen, token = funcs[call['f']]
+        for p, st in zip(pdescs, call['ext']):
+            if p['ext'] is not None:                          # the source objects read this dictionary at call time
+                p['ext'].clear()
+                p['ext'].update(st)
+        one = dict(f, args=call['args'], kwargs=call['kwargs'], request=None)
+        steps.append(perform(one, target, pdescs, journal, seen, token))
+    return {'steps': steps}
 
 
 def main():
